@@ -121,7 +121,7 @@ fn tier_for(prop: &str, tier: &str) -> Tier {
         return t;
     }
     if tier == "thorough-valgrind" {
-        let mut t = Tier { runs: 2_000_000, cap_s: 150, variants: if prop == "C05" { 4 } else { 0 } };
+        let mut t = Tier { runs: 2_000_000, cap_s: 150, variants: if prop == "C05" { 6 } else { 0 } };
         if let Some(c) = std::env::var("VERIF_CAP_S").ok().and_then(|s| s.parse::<u64>().ok()) {
             t.cap_s = c;
         }
@@ -134,7 +134,7 @@ fn tier_for(prop: &str, tier: &str) -> Tier {
         ("C06", false) => Tier { runs: 2_000_000, cap_s: 540, variants: 96 },
         ("C07", true) => Tier { runs: 24_000, cap_s: 60, variants: 16 },
         ("C07", false) => Tier { runs: 2_000_000, cap_s: 420, variants: 40 },
-        ("C05", true) => Tier { runs: 120_000, cap_s: 60, variants: 6 },
+        ("C05", true) => Tier { runs: 120_000, cap_s: 60, variants: 10 },
         ("C05", false) => Tier { runs: 20_000_000, cap_s: 540, variants: 24 },
         (_, true) => Tier { runs: 160_000, cap_s: 45, variants: 0 },
         (_, false) => Tier { runs: 50_000_000, cap_s: 420, variants: 0 },
@@ -157,6 +157,9 @@ fn batch_seed() -> u64 {
 // ---------------------------------------------------------------------------------------------
 
 fn spread(n: u64, cap: usize) -> Vec<u64> {
+    if cap == 1 && n > 1 {
+        return vec![(n + 1) / 2];
+    }
     if n as usize <= cap {
         (1..=n).collect()
     } else {
@@ -203,15 +206,29 @@ fn variants(prop: &str, g: &Generated, base_rep: &RunReport, cap: usize) -> Vec<
             }
         }
         "C05" => {
-            for k in spread(fc.mem_calls, (cap / 2).max(1)) {
-                add(F_MEM_FAIL, k as u32, 0);
+            // a replacement iterator that misreports its length, or panics, must not make the
+            // vector expose storage it never wrote
+            if g.scn.steps[fs].op == Op::Splice {
+                for d in [-1, 1, 2] {
+                    add(F_LEN_LIE, 0, d);
+                }
+                for k in spread(fc.nexts, 1) {
+                    add(F_NEXT_PANIC, k as u32, 0);
+                }
             }
-            // a panic in user code must not make the vector read storage it never wrote
+            let mem = spread(fc.mem_calls, (cap / 2).max(1));
+            for k in mem.iter().take(3) {
+                add(F_MEM_FAIL, *k as u32, 0);
+            }
+            // nor must a panic in an element's Clone or Drop
             for k in spread(fc.clones, 2) {
                 add(F_CLONE_PANIC, k as u32, 0);
             }
             for k in spread(fc.drops, 2) {
                 add(F_DROP_PANIC, k as u32, 0);
+            }
+            for k in mem.iter().skip(3) {
+                add(F_MEM_FAIL, *k as u32, 0);
             }
         }
         "C07" => {
@@ -919,6 +936,13 @@ fn check(prop: &str, tier: &str) -> i32 {
             continue;
         }
         if st.code() == Some(2) {
+            harness_err = true;
+            continue;
+        }
+        if st.code() == Some(101) {
+            // a panic that ended the worker's main thread: panics of the library are caught and
+            // judged inside the run, so this one was raised by the harness itself
+            eprintln!("[anysim] worker {} ended by a panic of the harness", w.wid);
             harness_err = true;
             continue;
         }
